@@ -13,6 +13,7 @@ import (
 	"strconv"
 	"strings"
 
+	"golang.org/x/tools/go/cfg"
 	"golang.org/x/tools/go/packages"
 
 	"verif/internal/core"
@@ -20,27 +21,31 @@ import (
 )
 
 const (
-	c18evS      = "ev:c18:slock"      // admin server's cluster lock held
-	c18evDead   = "ev:c18:dead"       // a callee that never returns was called: the state is infeasible
-	c18evO1     = "ev:c18:obj1"       // >= 1 object write
-	c18evO2     = "ev:c18:obj2"       // >= 2 object writes
-	c18evV1     = "ev:c18:ver1"       // >= 1 version upgrade
-	c18evV2     = "ev:c18:ver2"       // >= 2 version upgrades
-	c18evVFirst = "ev:c18:verFirst"   // an object write happened after a version upgrade
-	c18evPend   = "ev:c18:pending"    // lock released after a write that has not been followed by its upgrade yet
-	c18evGap    = "ev:c18:gap"        // write and upgrade are not in one critical section
-	c18evErr    = "ev:c18:apierr"     // an API error response has been sent
-	c18evNonU   = "ev:c18:nonuniform" // a callee with path-dependent write counts was called
-	c18evReadL  = "ev:c18:readLocked" // existence read made under the lock
-	c18evReadU  = "ev:c18:readUnlocked"
-	c18evMxL    = "ev:c18:mxLock"   // cluster.Mutex.Lock called
-	c18evMxU    = "ev:c18:mxUnlock" // cluster.Mutex.Unlock called
-	c18evHdr    = "ev:c18:hdr"      // X-Config-Version set after the upgrade
-	c18evVW     = "ev:c18:vw#"      // + delta of the version written by the last upgrade ("?" unknown)
-	c18evRet    = "ev:c18:ret#"     // + delta of the returned value
-	c18evRetUnk = "ev:c18:retUnknown"
-	c18dPrefix  = "ev:c18:d:" // + render + "#" + delta
-	c18stPrefix = "ev:c18:status:"
+	c18evS       = "ev:c18:slock"      // admin server's cluster lock held
+	c18evDead    = "ev:c18:dead"       // a callee that never returns was called: the state is infeasible
+	c18evO1      = "ev:c18:obj1"       // >= 1 object write
+	c18evO2      = "ev:c18:obj2"       // >= 2 object writes
+	c18evV1      = "ev:c18:ver1"       // >= 1 version upgrade
+	c18evV2      = "ev:c18:ver2"       // >= 2 version upgrades
+	c18evVFirst  = "ev:c18:verFirst"   // an object write happened after a version upgrade
+	c18evPend    = "ev:c18:pending"    // lock released after a write that has not been followed by its upgrade yet
+	c18evGap     = "ev:c18:gap"        // write and upgrade are not in one critical section
+	c18evErr     = "ev:c18:apierr"     // an API error response has been sent
+	c18evNonU    = "ev:c18:nonuniform" // a callee with path-dependent write counts was called
+	c18evReadL   = "ev:c18:readLocked" // existence read made under the lock
+	c18evReadU   = "ev:c18:readUnlocked"
+	c18evMxL     = "ev:c18:mxLock"   // cluster.Mutex.Lock called
+	c18evMxU     = "ev:c18:mxUnlock" // cluster.Mutex.Unlock called
+	c18evHdr     = "ev:c18:hdr"      // X-Config-Version set after the upgrade
+	c18evVW      = "ev:c18:vw#"      // + delta of the version written by the last upgrade ("?" unknown)
+	c18evRet     = "ev:c18:ret#"     // + delta of the returned value
+	c18evRetUnk  = "ev:c18:retUnknown"
+	c18evFn1     = "ev:c18:fn1"     // the function parameter has been called
+	c18evFn2     = "ev:c18:fn2"     // … more than once
+	c18evWrapped = "ev:c18:wrapped" // a closure was handed to a lock wrapper on this path
+	c18evSeeded  = "ev:c18:seeded"  // (closure analysis) the entry state has been installed
+	c18dPrefix   = "ev:c18:d:"      // + render + "#" + delta
+	c18stPrefix  = "ev:c18:status:"
 )
 
 var c18readers = map[string]bool{"Get": true, "GetPrefix": true, "GetRaw": true, "GetRawPrefix": true, "GetWithOp": true}
@@ -84,12 +89,15 @@ type c18sum struct {
 	hdrSeen     bool
 	w           c18dv // value written to the version key (base r = version read, p<i> = parameter i)
 	wKnown      bool
-	errAll      bool     // every live return exit has sent an API error response
-	errMixed    bool     // some do, some do not
-	statuses    []string // status codes sent on every exit (errAll)
-	statusParam int      // index of the parameter forwarded as status code (-1 = none)
-	objRead     bool     // reads the config-object key space (directly or through a callee)
-	verRead     bool     // reads the config version key (directly or through a callee)
+	errAll      bool             // every live return exit has sent an API error response
+	errMixed    bool             // some do, some do not
+	statuses    []string         // status codes sent on every exit (errAll)
+	statusParam int              // index of the parameter forwarded as status code (-1 = none)
+	objRead     bool             // reads the config-object key space (directly or through a callee)
+	verRead     bool             // reads the config version key (directly or through a callee)
+	wrapParam   int              // index of the func parameter this function runs exactly once with the cluster lock held (-1: not a lock wrapper)
+	wrapLocked  bool             // … and holds the cluster lock while it runs it
+	bodies      []*ast.BlockStmt // the declaration body and the bodies of closures run through a lock wrapper
 	takesLock   bool
 	ret         c18dv // value returned
 	retKnown    bool
@@ -364,6 +372,14 @@ func c18Admin(c *core.Ctx) {
 	for fo := range a.lockFn {
 		relevant[fo] = true
 	}
+	// … and whoever takes the lock (lock wrappers such as withLock(fn) reach no write themselves)
+	for fo, fd := range a.decls {
+		for _, call := range calls(fd.Body, true) {
+			if g := a.calleeOf(call); g != nil && a.lockFn[g] {
+				relevant[fo] = true
+			}
+		}
+	}
 	for fo := range a.unlkFn {
 		relevant[fo] = true
 	}
@@ -545,7 +561,7 @@ func (a *c18apiCtx) summary(fo *types.Func) *c18sum {
 	c := a.c
 	f := flow.NewFunc(a.pkg, fd)
 	c.Count("functions_analysed", 1)
-	s := &c18sum{fo: fo, fd: fd, f: f, cons: declName(a.pkg, fd), statusParam: -1}
+	s := &c18sum{fo: fo, fd: fd, f: f, cons: declName(a.pkg, fd), statusParam: -1, wrapParam: -1, bodies: []*ast.BlockStmt{fd.Body}}
 	info := a.pkg.TypesInfo
 	dx := &c18dctx{a: a, f: f, params: c18paramIndex(f)}
 
@@ -569,6 +585,9 @@ func (a *c18apiCtx) summary(fo *types.Func) *c18sum {
 			s.wBad = st
 		}
 	}
+	fnParam, fnUnlocked := -2, false
+	wraps := map[*ast.CallExpr]*ast.FuncLit{}
+	wrapLocked := map[*ast.CallExpr]bool{}
 	var onCall func(st *flow.State, call *ast.CallExpr, callee types.Object, deferred bool, depth int)
 	onCall = func(st *flow.State, call *ast.CallExpr, callee types.Object, deferred bool, depth int) {
 		switch c18ifaceCall(info, call, "Mutex") {
@@ -599,6 +618,24 @@ func (a *c18apiCtx) summary(fo *types.Func) *c18sum {
 			return
 		}
 		fo2, ok := callee.(*types.Func)
+		if v, isVar := callee.(*types.Var); isVar {
+			if pi, isParam := dx.params[v]; isParam {
+				// the function runs a function it was handed (lock wrapper role)
+				if fnParam == -2 || fnParam == pi {
+					fnParam = pi
+				} else {
+					fnParam = -1
+				}
+				if !st.Is(c18evS, flow.True) && c18live(st) {
+					fnUnlocked = true
+				}
+				if st.Is(c18evFn1, flow.True) {
+					st.Set(c18evFn2, flow.True)
+				}
+				st.Set(c18evFn1, flow.True)
+				return
+			}
+		}
 		if !ok {
 			// a call through a local: a method value / function (resolved), or a closure whose
 			// straight-line body is applied here
@@ -668,6 +705,29 @@ func (a *c18apiCtx) summary(fo *types.Func) *c18sum {
 			st.Set(c18evDead, flow.True)
 			return
 		}
+		if g.wrapParam >= 0 {
+			// withLock(func() {..}): the closure is the critical section; it is analysed below with
+			// the lock held and the state reached here
+			var lit *ast.FuncLit
+			if g.wrapParam < len(call.Args) {
+				switch x := ast.Unparen(call.Args[g.wrapParam]).(type) {
+				case *ast.FuncLit:
+					lit = x
+				case *ast.Ident:
+					if v, ok := info.Uses[x].(*types.Var); ok {
+						lit, _ = c18boundValue(a.pkg, v).(*ast.FuncLit)
+					}
+				}
+			}
+			if lit == nil || depth > 0 {
+				st.Set(c18evNonU, flow.True)
+				return
+			}
+			wraps[call] = lit
+			wrapLocked[call] = g.wrapLocked
+			st.Set(c18evWrapped, flow.True)
+			return
+		}
 		if g.obj < 0 || g.ver < 0 || g.errMixed {
 			st.Set(c18evNonU, flow.True)
 		} else {
@@ -714,36 +774,117 @@ func (a *c18apiCtx) summary(fo *types.Func) *c18sum {
 			}
 		}
 	}
-	res := analyze(c, f, flow.Config{
-		NoHavoc: true,
-		MayPanic: func(call *ast.CallExpr, callee types.Object) bool {
-			switch o := callee.(type) {
-			case *types.Builtin:
-				return false
-			case *types.Func:
-				if o.Pkg() == nil {
-					return true // interface method of the universe (error.Error)
-				}
-				if strings.HasPrefix(o.Pkg().Path(), Mod) {
-					return true
-				}
-				sig, _ := o.Type().(*types.Signature)
-				return sig != nil && sig.Recv() != nil && types.IsInterface(sig.Recv().Type())
-			default:
-				if tv, ok := info.Types[call.Fun]; ok && tv.IsType() {
+	mkcfg := func(onBlock func(st *flow.State, b *cfg.Block)) flow.Config {
+		return flow.Config{
+			NoHavoc: true,
+			OnBlock: onBlock,
+			MayPanic: func(call *ast.CallExpr, callee types.Object) bool {
+				switch o := callee.(type) {
+				case *types.Builtin:
 					return false
+				case *types.Func:
+					if o.Pkg() == nil {
+						return true // interface method of the universe (error.Error)
+					}
+					if strings.HasPrefix(o.Pkg().Path(), Mod) {
+						return true
+					}
+					sig, _ := o.Type().(*types.Signature)
+					return sig != nil && sig.Recv() != nil && types.IsInterface(sig.Recv().Type())
+				default:
+					if tv, ok := info.Types[call.Fun]; ok && tv.IsType() {
+						return false
+					}
+					return true // call through a function value
 				}
-				return true // call through a function value
-			}
-		},
-		OnNode: func(st *flow.State, n ast.Node) { dx.node(st, n) },
-		OnCall: func(st *flow.State, call *ast.CallExpr, callee types.Object, deferred bool) {
-			onCall(st, call, callee, deferred, 0)
-		},
-	})
+			},
+			OnNode: func(st *flow.State, n ast.Node) { dx.node(st, n) },
+			OnCall: func(st *flow.State, call *ast.CallExpr, callee types.Object, deferred bool) {
+				onCall(st, call, callee, deferred, 0)
+			},
+		}
+	}
+	res := analyze(c, f, mkcfg(nil))
 	if res == nil {
 		a.sums[fo] = s
 		return s
+	}
+	// closures run through a lock wrapper: analysed from the states that reach the wrapper call,
+	// with the lock held; their exits replace the exits that passed through the call
+	if len(wraps) > 0 {
+		var calls2 []*ast.CallExpr
+		for call := range wraps {
+			calls2 = append(calls2, call)
+		}
+		sort.Slice(calls2, func(i, j int) bool { return calls2[i].Pos() < calls2[j].Pos() })
+		last := false
+		if len(calls2) == 1 && len(fd.Body.List) > 0 {
+			tail := fd.Body.List[len(fd.Body.List)-1]
+			if r, ok := tail.(*ast.ReturnStmt); ok && len(r.Results) == 0 && len(fd.Body.List) > 1 {
+				tail = fd.Body.List[len(fd.Body.List)-2]
+			}
+			if es, ok := tail.(*ast.ExprStmt); ok && ast.Unparen(es.X) == ast.Expr(calls2[0]) {
+				last = true
+			}
+		}
+		var kept []*flow.Exit
+		for _, ex := range res.Exits {
+			if !ex.State.Is(c18evWrapped, flow.True) {
+				kept = append(kept, ex)
+			} else if !last {
+				st2 := ex.State.Clone()
+				st2.Set(c18evNonU, flow.True)
+				kept = append(kept, &flow.Exit{Kind: ex.Kind, Return: ex.Return, At: ex.At, State: st2})
+			}
+		}
+		for _, call := range calls2 {
+			lit := wraps[call]
+			s.bodies = append(s.bodies, lit.Body)
+			seen := map[string]bool{}
+			for _, pre := range res.At[call] {
+				if !c18live(pre) || seen[pre.Key()] {
+					continue
+				}
+				seen[pre.Key()] = true
+				facts := pre.Facts()
+				lres := analyze(c, f.Lit(lit), mkcfg(func(st *flow.State, b *cfg.Block) {
+					if st.Is(c18evSeeded, flow.True) {
+						return
+					}
+					for _, kv := range facts {
+						if len(kv) < 3 {
+							continue
+						}
+						v := flow.True
+						if kv[len(kv)-1] == 'F' {
+							v = flow.False
+						}
+						st.Set(kv[:len(kv)-2], v)
+					}
+					if wrapLocked[call] {
+						st.Set(c18evS, flow.True)
+					}
+					st.Set(c18evSeeded, flow.True)
+				}))
+				if lres == nil {
+					continue
+				}
+				for k, v := range lres.At {
+					res.At[k] = append(res.At[k], v...)
+				}
+				if !last {
+					continue
+				}
+				for _, ex := range lres.Exits {
+					st2 := ex.State.Clone()
+					if wrapLocked[call] {
+						st2.Set(c18evS, flow.False) // the wrapper's unlock (an obligation of the wrapper itself)
+					}
+					kept = append(kept, &flow.Exit{Kind: ex.Kind, Return: ex.Return, At: ex.At, State: st2})
+				}
+			}
+		}
+		res.Exits = kept
 	}
 	s.res = res
 
@@ -840,6 +981,21 @@ func (a *c18apiCtx) summary(fo *types.Func) *c18sum {
 	if !retUnknown && len(retSet) == 1 {
 		for v := range retSet {
 			s.ret, s.retKnown = v, true
+		}
+	}
+
+	// lock wrapper role: runs its function parameter exactly once, with the lock held, and does nothing else
+	if fnParam >= 0 && s.obj == 0 && s.ver == 0 && !s.errAll && !s.errMixed {
+		once := liveReturns > 0
+		for _, ex := range res.Exits {
+			if ex.Kind == flow.ExitReturn && c18live(ex.State) &&
+				(!ex.State.Is(c18evFn1, flow.True) || ex.State.Is(c18evFn2, flow.True)) {
+				once = false
+			}
+		}
+		if once {
+			s.wrapParam = fnParam
+			s.wrapLocked = !fnUnlocked && s.takesLock
 		}
 	}
 
@@ -1041,7 +1197,7 @@ func (a *c18apiCtx) lockRules(rel []*types.Func, escapes, external map[*types.Fu
 			continue
 		}
 		var acq []*ast.CallExpr
-		for _, call := range calls(s.fd.Body, false) {
+		for _, call := range s.bodyCalls() {
 			if c18ifaceCall(a.pkg.TypesInfo, call, "Mutex") == "Lock" {
 				acq = append(acq, call)
 			}
@@ -1284,7 +1440,7 @@ func (a *c18apiCtx) handlerRules(s *c18sum, method string) {
 
 	// ---- the existence read
 	var reads []*ast.CallExpr
-	for _, call := range calls(s.fd.Body, false) {
+	for _, call := range s.bodyCalls() {
 		if d := a.direct[call]; d != nil {
 			if !d.write && d.kind == "object" {
 				reads = append(reads, call)
@@ -1395,7 +1551,7 @@ func (a *c18apiCtx) handlerRules(s *c18sum, method string) {
 		// … or a same-package bool helper that compares the kinds of its two parameters
 		// (sameKind(a, b) / differentKind(a, b)), called with the stored object
 		if kindKey == "" {
-			for _, call := range calls(s.fd.Body, false) {
+			for _, call := range s.bodyCalls() {
 				g := a.calleeOf(call)
 				if g == nil {
 					continue
@@ -1424,7 +1580,7 @@ func (a *c18apiCtx) handlerRules(s *c18sum, method string) {
 		}
 		// a bool-valued call on the stored object that the rule cannot look into
 		if kindKey == "" {
-			for _, call := range calls(s.fd.Body, false) {
+			for _, call := range s.bodyCalls() {
 				tv, ok := info.Types[call]
 				if !ok || tv.Type == nil {
 					continue
@@ -1449,7 +1605,7 @@ func (a *c18apiCtx) handlerRules(s *c18sum, method string) {
 
 	// ---- guard at the write sites
 	var writes []*ast.CallExpr
-	for _, call := range calls(s.fd.Body, false) {
+	for _, call := range s.bodyCalls() {
 		if d := a.direct[call]; d != nil {
 			if d.write && d.kind == "object" {
 				writes = append(writes, call)
@@ -1670,4 +1826,14 @@ func (a *c18apiCtx) exactKeyRules() {
 			sprintf("cluster.%s is a range operation applied to the key of a single %s (Layout.%s): %s", d.method, what, strings.Join(single, "+"), why))
 	}
 	c.RequireCount("R-C18-5", "cluster operations on single-object / version keys in pkg/api", n, 4)
+}
+
+// bodyCalls lists the calls of the declaration body and of the closures it runs through a lock
+// wrapper (other function literals are not entered).
+func (s *c18sum) bodyCalls() []*ast.CallExpr {
+	var out []*ast.CallExpr
+	for _, b := range s.bodies {
+		out = append(out, calls(b, false)...)
+	}
+	return out
 }
